@@ -240,3 +240,29 @@ W void w_psv_pre(const unsigned char* in, unsigned n, const char* pre, unsigned 
   }
   o->pre_refs = p ? unsigned(p->references) : 0; o->pre_len = p ? unsigned(p->length) : 0;
 }
+// ---- parseArray<Filter> step: the filter document is one of a small family built with the low-level API
+ROB(T_app, CollectionData, void (CollectionData::*)(Slot<VariantData>, const ResourceManager*), appendOne)
+static void buildFilter(VariantData& f, ResourceManager& frm, unsigned shape) {
+  switch (shape) {
+    case 0: f.setBoolean(true); break;                                        // true
+    case 1: f.setBoolean(false); break;                                       // false
+    // (not through addElement: that function is cut in the step units)
+    case 2: { ArrayData& a = f.toArray(); auto sl = frm.allocVariant(); if (sl) { (a.*get(T_app()))(sl, &frm); sl->setBoolean(true); } break; }    // [true]
+    case 3: { ArrayData& a = f.toArray(); auto sl = frm.allocVariant(); if (sl) { (a.*get(T_app()))(sl, &frm); sl->setBoolean(false); } break; }   // [false]
+    case 4: f.toArray(); break;                                               // []
+    case 5: f.toObject(); break;                                              // {}
+    default: break;                                                           // null
+  }
+}
+static Arena farena;
+W void w_parse_array_f(const unsigned char* in, unsigned n, unsigned char limit, unsigned shape, Out* o) {
+  SETUP(0)
+  farena.reset(0); ResourceManager frm(&farena); VariantData fv; buildFilter(fv, frm, shape);
+  Filter filter{JsonVariantConst(&fv, &frm)};
+  VariantData v; 
+  d.*get(T_found()) = true; (void)(d.*get(T_latch())).current();
+  Code c;
+  if (filter.allowArray()) { ArrayData& a = v.toArray(); c = (d.*get(T_paf()))(a, filter, NL(limit)); o->aux = 1; }
+  else { c = (d.*get(T_sa()))(NL(limit)); o->aux = 0; }      // what parseVariant<Filter> does for '['
+  o->aux2 = unsigned(rm.overflowed()); fill(o, d, in, c);
+}
